@@ -747,26 +747,30 @@ static void variant_narrowing(uint64_t& idx)
   }
 }
 
+template<class T, int GW>
 static void variant_deny(uint64_t off, size_t n, uint64_t& idx)
 {
-  std::string tag = "deny x" + std::to_string(n) + "@" + std::to_string(off);
+  std::string tag = std::string("deny<") + tname<T>() + "> x" + std::to_string(n) + "@" + std::to_string(off);
+  const bool fits = off + n * GW <= kSize;
   auto setup = [=] {
-    g_sc = Scenario{ off, n, off >= 16 ? off - 16 : 0, 0, false };
-    g_sc.win_len = std::min<uint64_t>(kSize - g_sc.win_off, n + 48);
+    g_sc = Scenario{ off, std::min<uint64_t>(n * GW, kSize - off), off >= 16 ? off - 16 : 0, 0, false };
+    g_sc.win_len = std::min<uint64_t>(kSize - g_sc.win_off, n * GW + 48);
     memset(g_mem + g_sc.win_off, 0x11, g_sc.win_len);
-    for (size_t i = 0; i < n; i++) g_mem[off + i] = (uint8_t)(0x61 + i);
+    for (size_t i = 0; i < n * GW && off + i < kSize; i++) g_mem[off + i] = (uint8_t)(0x61 + i);
   };
   Variant body = [=](Verdict& vd) {
-    auto p = sp<char>(off);
+    auto p = sp<T>(off);
     bool copied = false;
-    char* r = rlbox::copy_memory_or_deny_access(*g_sb, p, n, false, copied);
+    T* r = rlbox::copy_memory_or_deny_access(*g_sb, p, n, false, copied);
+    if (!fits) { vd.problems.push_back("copy-extends-past-checked-range: " + std::to_string(n) + " elements of " + std::to_string(GW) + " bytes at offset " + std::to_string(off) + " do not fit the region, but a copy was handed out"); free(r); return; }
     if (!r) { vd.problems.push_back("null-buffer: copy_memory_or_deny_access returned null"); return; }
-    if (!outside_all(r, n)) vd.problems.push_back("verifier-object-in-sandbox: denied copy lies in sandbox memory");
-    uint64_t h0 = fnv(r, n);
+    if (!outside_all(r, n * sizeof(T))) vd.problems.push_back("verifier-object-in-sandbox: denied copy lies in sandbox memory");
+    uint64_t h0 = fnv(r, n * sizeof(T));
     verifier_entry_attack();
-    if (fnv(r, n) != h0) vd.problems.push_back("changed-during-verifier: copy changed after the sandbox overwrote its memory");
-    for (size_t i = 0; i < n; i++)
-      if (!in_history(i, 1, (i128)(signed char)r[i]) && !in_history(i, 1, (i128)(unsigned char)r[i])) vd.problems.push_back("value-never-held: byte " + std::to_string(i));
+    if (fnv(r, n * sizeof(T)) != h0) vd.problems.push_back("changed-during-verifier: copy changed after the sandbox overwrote its memory");
+    const unsigned char* rb = reinterpret_cast<const unsigned char*>(r);
+    for (size_t i = 0; i < n * GW; i++)
+      if (!in_history(i, 1, (i128)(signed char)rb[i]) && !in_history(i, 1, (i128)rb[i])) vd.problems.push_back("value-never-held: byte " + std::to_string(i));
     free(r);
   };
   explore("copy_memory_or_deny_access", tag, setup, body, { M_FLIP, M_FLIP1, M_OVERWRITE }, idx);
@@ -819,8 +823,13 @@ int main(int argc, char** argv)
     variant_ptr<long long, 8>(off + 8, idx);
     variant_array(off, idx);
     variant_address(off, idx);
-    variant_deny(off + 8, 8, idx);
-    variant_deny(off + 15, 1, idx);
+    variant_deny<char, 1>(off + 8, 8, idx);
+    variant_deny<char, 1>(off + 15, 1, idx);
+    // element types wider than a byte: the element count is not the byte count (the second placement does not fit the region)
+    variant_deny<short, 2>(off + 8, 4, idx);
+    variant_deny<double, 8>(off, 2, idx);
+    variant_deny<short, 2>(off + 10, 5, idx);
+    variant_deny<double, 8>(off + 8, 3, idx);
   }
   variant_cell<char, 1>(idx);
   variant_cell<int, 4>(idx);
